@@ -1571,7 +1571,11 @@ class Analyzer:
                     it = self.sub_of_operand(st, t["args"][0], ("#item",)) if t["args"] else None
                     if it is not None and g.arg_count >= 2 and ty_range(g.locals[g.arg_count]["ty"]) is not None:
                         cargs[-1] = it
-                    self.call_local(g.path, cargs, self._closure_env(f, st, ap["local"]) or None)
+                    cret = self.call_local(g.path, cargs, self._closure_env(f, st, ap["local"]) or None)
+                    if core.strip_generics(core.callee_path(t) or "").rsplit("::", 1)[-1] == "map" and cret.get(()) is not None:
+                        # the items of `iter.map(closure)` are the closure's results
+                        ret = dict(ret or {})
+                        ret[("#item",)] = cret[()]
                     if record:
                         # for the fold-accumulator idiom of the panic-freedom engine: how often the closure runs at most
                         rem = self.sub_of_operand(st, t["args"][0], ("#rem",)) if t["args"] else None
